@@ -527,7 +527,7 @@ class Recorder:
         np.random.multivariate_normal = self.orig
 
 
-ROW_INDEX_FORMS = ('default', 'shuffled', 'offset-n', 'offset-1', 'strings', 'datetime', 'multi', 'duplicated')
+ROW_INDEX_FORMS = ('default', 'shuffled', 'offset-n', 'offset-1', 'strings', 'datetime', 'multi', 'duplicated', 'filtered')
 
 
 def make_row_index(form, n):
@@ -546,6 +546,8 @@ def make_row_index(form, n):
         return pd.MultiIndex.from_arrays([np.arange(n) // 7, np.arange(n) % 7])
     if form == 'duplicated':
         return pd.Index(np.arange(n) // 2)
+    if form == 'filtered':          # what is left of a 3n-row table after a row filter
+        return pd.Index(np.sort(np.random.RandomState(n).choice(3 * n, size=n, replace=False)))
     return pd.RangeIndex(n)
 
 
@@ -1370,6 +1372,12 @@ def search(ctx, deep):
             ec = empty_dict_case(rng9, nr9, shape if deep else rng9.choice(['empty', 'empty', 'unknown-key-only', 'one-named']))
             oracle_case(ctx, ec, stats, schema_ns=[rng9.randint(2, 60)], big=False)
             unnamed_columns_oracle(ctx, ec, stats)
+    # selector instance on a non-default row index; weakly dependent Gaussian columns
+    rng10 = ctx.rng('search', 'selector-index')
+    nr10 = ctx.nprng('search', 'selector-index')
+    for t in range((3 if quick else 8) if deep else 1):
+        oracle_case(ctx, selector_index_case(rng10, nr10), stats, schema_ns=[rng10.randint(2, 60)], big=False)
+        oracle_case(ctx, weak_dependence_case(rng10, nr10), stats, schema_ns=[rng10.randint(2, 200)], big=False)
     # instances with options (weighted KDE, bw_method, sample_size, TruncatedGaussian bounds)
     rng6 = ctx.rng('search', 'kde-options')
     nr6 = ctx.nprng('search', 'kde-options')
@@ -1906,6 +1914,42 @@ def empty_dict_case(rng, nr, shape=None):
             'row_index': 'default'}
 
 
+def selector_index_case(rng, nr):
+    """`Univariate(selection_sample_size=k)` INSTANCE as the distribution (whole table or per column), k < rows, on a
+    training frame whose row index is not 0..n-1 (filtered / offset / strings / datetime); non-Gaussian columns."""
+    n = rng.choice([60, 120])
+    k = rng.choice([2, 3])
+    R, L = random_correlation(rng, nr, k)
+    Z = nr.randn(n, k) @ L.T
+    kinds = [rng.choice(['gamma', 'uniform', 'kde']) for _ in range(k)]
+    cols = [np.asarray(marginal(rng, kd)[0](Z[:, j]), dtype=float) for j, kd in enumerate(kinds)]
+    labels = rng.sample(['a', 'b', 'c', 'd'], k)
+    leaf = ['inst', 'Univariate', {'selection_sample_size': rng.choice([n // 3, n // 2])}]
+    spec = leaf if rng.random() < 0.5 else ['dict', [[enc_label(lab), list(leaf)] for lab in labels]]
+    return {'labels': labels, 'cols': [c.tolist() for c in cols], 'kinds': kinds, 'descr': [''] * k, 'config': spec,
+            'seed': ['int', rng.randrange(2 ** 31)], 'ndarray': False, 'dtypes': ['float'] * k, 'row_order': 'as-drawn',
+            'row_index': rng.choice(['filtered', 'offset-n', 'strings', 'datetime'])}
+
+
+def weak_dependence_case(rng, nr):
+    """2-3 Gaussian columns whose IN-SAMPLE correlations are all ~0.035 (built by Gram-Schmidt, so the fitted
+    correlation is weak but not zero for sure) and no constant column: the draws must still be N(0, correlation)."""
+    n = rng.choice([300, 600])
+    k = rng.choice([2, 3])
+    Q, _ = np.linalg.qr(nr.randn(n, k) - nr.randn(n, k).mean(axis=0))
+    Q = Q - Q.mean(axis=0)
+    Q, _ = np.linalg.qr(Q)
+    r = 0.035
+    C = np.full((k, k), r) + (1 - r) * np.eye(k)
+    X = Q @ np.linalg.cholesky(C).T * math.sqrt(n)
+    cols = [rng.choice([-3.0, 0.0, 10.0]) + rng.choice([0.5, 2.0]) * X[:, j] for j in range(k)]
+    labels = rng.sample(['u', 'v', 'w', 'x'], k)
+    return {'labels': labels, 'cols': [np.asarray(c, dtype=float).tolist() for c in cols], 'kinds': ['gaussian'] * k,
+            'descr': [''] * k, 'config': [rng.choice(['class', 'str', 'inst']), 'GaussianUnivariate'],
+            'seed': ['int', rng.randrange(2 ** 31)], 'ndarray': False, 'dtypes': ['float'] * k, 'row_order': 'as-drawn',
+            'row_index': 'default'}
+
+
 def kde_options_case(rng, nr):
     """ordinary-scale columns configured with INSTANCES carrying options: GaussianKDE(weights=non-uniform),
     GaussianKDE(bw_method=...), GaussianKDE(sample_size=...), TruncatedGaussian(minimum, maximum); the first column
@@ -2334,6 +2378,12 @@ def oracle_case(ctx, case, stats, schema_ns, big, only=None, hunt=0, light=False
             return
         first = False
         stats['schema_checks'] += 1
+        if not (len(calls) == 1 and calls[0]['size'] == n and not np.asarray(calls[0]['mean']).any()
+                and bits_equal(calls[0]['cov'], model.correlation.to_numpy())):
+            ctx.fail_input(ep, case_input(case, n=n), {'recorded_multivariate_normal_calls': len(calls),
+                                                       'model_correlation': model.correlation.to_numpy().tolist()},
+                           'the normal draws come from ONE call multivariate_normal(zeros(d), model.correlation, size=n)',
+                           f'{ep}:draw-request')
         for what, obs in schema_problems(model, case, out, n, calls[0]['out'] if len(calls) == 1 else None):
             ctx.fail_input(ep, case_input(case, n=n), obs,
                            'exactly n rows, the training labels in training order, finite float columns (no NaN / inf), '
